@@ -1,6 +1,9 @@
+#![cfg_attr(feature = "nightly", feature(allocator_api))]
 mod core;
 mod sodium;
 mod c03;
+#[cfg(feature = "nightly")]
+mod pm;
 
 use serde_json::Value;
 
@@ -15,6 +18,8 @@ fn replay(path: &str) -> i32 {
         match check {
             "C03.model" => c03::replay_model(case),
             "C03.sweep" => c03::replay_sweep(case),
+            #[cfg(feature = "nightly")]
+            "C14.pm" | "C15.pm" | "C19.pm" => pm::replay(case),
             _ => {
                 println!("MACHINERY-ERROR unknown replay check '{}'", check);
                 std::process::exit(2);
@@ -49,6 +54,14 @@ fn main() {
     let code = match args[1].as_str() {
         "replay" => replay(&args[2]),
         "C03" => c03::run(),
+        #[cfg(feature = "nightly")]
+        "pmworker" => pm::worker(&args[2..]),
+        #[cfg(feature = "nightly")]
+        "C14" => pm::run_c14(),
+        #[cfg(feature = "nightly")]
+        "C15" => pm::run_c15(),
+        #[cfg(feature = "nightly")]
+        "C19" => pm::run_c19(),
         other => {
             eprintln!("unknown check {}", other);
             2
